@@ -73,10 +73,16 @@ def load_findings(pid):
          fixed: property=<id> <commit> <what failed>
     """
     out = []
+    lines = []
     path = os.path.join(ROOT, "KNOWN_FINDINGS")
-    if not os.path.exists(path):
-        return out
-    for line in open(path):
+    if os.path.exists(path):
+        lines += open(path).readlines()
+    fdir = os.path.join(ROOT, "findings")          # one file per property: findings/<ID>.txt, same line format
+    if os.path.isdir(fdir):
+        for f in sorted(os.listdir(fdir)):
+            if f.endswith(".txt"):
+                lines += open(os.path.join(fdir, f)).readlines()
+    for line in lines:
         line = line.strip()
         if not line.startswith("open:"):
             continue
